@@ -670,6 +670,53 @@ def r3(k: Kit) -> None:
                   'only raises',
                   f'with {field} {"unset" if want else "set"} {detail} '
                   'instead of a protocol error', k.loc(fi, fi.node))
+    # enabling flags are switched on only at the state transition that
+    # legitimises the message (who-may-write + ordering)
+    ENABLE = [
+        ('self._can_recv_ext_info', 'connection',
+         {CONN + '_process_newkeys'}, 'self._recv_encryption'),
+        ('self._host_key_msg_ok', 'kex_dh',
+         {'kex_dh._KexGSSBase.start'}, None),
+    ]
+    for field, modname, allowed_fns, after_store in ENABLE:
+        nst = 0
+        for f in k.idx.iter_funcs([modname]):
+            for node in walk_shallow(f.node):
+                if isinstance(node, ast.Assign) and any(
+                        dotted(t) == field for t in node.targets) and \
+                        isinstance(node.value, ast.Constant) and \
+                        node.value.value is True:
+                    nst += 1
+                    okw = f.qual in allowed_fns
+                    rep.check(okw, 'C06.R3', key(f, f'enable {field}'),
+                              f'{field} enabled in its transition function',
+                              f'{field} is switched on in {f.qual}, outside '
+                              'the state transition that legitimises the '
+                              'message it guards', f.loc(node))
+                    if okw and after_store:
+                        g = k.cfg(f)
+                        cn = g.node_for(node)
+                        pre = [n.id for n, v in k.stores_to(f, after_store)]
+                        w = g.path(g.entry, cn.id, blocked_nodes=pre) \
+                            if cn is not None else [0]
+                        rep.check(bool(pre) and w is None, 'C06.R3',
+                                  key(f, f'{field} after {after_store}'),
+                                  f'enabled only after {after_store} switched',
+                                  f'{field} enabled on a path where '
+                                  f'{after_store} has not been switched',
+                                  f.loc(node))
+                    if okw and field == 'self._host_key_msg_ok':
+                        g = k.cfg(f)
+                        cn = g.node_for(node)
+                        w = g.guarded_by(cn.id, lambda n: True if
+                                         n.kind == 'atom' and
+                                         is_call(n.ast, 'is_client') else None)
+                        rep.check(w is None, 'C06.R3',
+                                  key(f, f'{field} client only'),
+                                  'hostkey message enabled for clients only',
+                                  'hostkey message enabled for servers',
+                                  f.loc(node))
+        rep.floor('C06.R3', f'enable sites {field}', nst, 1)
     # _process_continue: client with a completed context must be rejected
     pc = k.func('kex_dh._KexGSSBase._process_continue')
     g = k.cfg(pc)
